@@ -279,3 +279,431 @@ Proof.
   destruct (negb _); [exact I|]. rewrite <- E.
   apply fine_iff. apply dir_dfs_total. congruence.
 Qed.
+
+(* ------------------------------------------------------------------ *)
+(* O5: the sector layer and Chain::read on the MiniFAT chain; composition *)
+Lemma fine_run {A} (m : M A) s : fine (snd (m s)) -> fine (run m s).
+Proof. unfold run. destruct (m s) as [s' r]. destruct r; cbn; auto. Qed.
+
+Lemma seek_sector_spec sid off s : off <= slen s ->
+  exists r, seek_sector sid off s = (s, r) /\ fine r.
+Proof.
+  intros H. unfold seek_sector, bind, get. cbv beta iota zeta.
+  destruct (N.ltb_spec (slen s) off); [lia|].
+  destruct (_ <=? _); unfold fail, ret; eexists; (split; [reflexivity|exact I]).
+Qed.
+
+Lemma sector_read_exact_spec sid off n s : off <= slen s ->
+  exists r, sector_read_exact sid off n s = (s, r) /\ fine r.
+Proof.
+  intros H. unfold sector_read_exact, bind at 1.
+  destruct (seek_sector_spec sid off s H) as (r & -> & Hr).
+  destruct r; try contradiction; cbv beta iota zeta.
+  - unfold bind, get. cbv beta iota zeta. destruct (_ <? _); unfold fail, ret; eexists; (split; [reflexivity|exact I]).
+  - eexists; (split; [reflexivity|exact I]).
+Qed.
+
+Lemma chain_read_go_fine s : 0 < slen s ->
+  forall f c n acc,
+  (n = 0 \/ exists q, c_off c = slen s * q) ->
+  c_off c <= chain_len (slen s) c ->
+  (1 <= f)%nat -> (n <> 0 -> (N.to_nat (n / slen s) + 2 <= f)%nat) ->
+  fine (snd (chain_read_go f c n acc s)).
+Proof.
+  intros Hsl. induction f as [|f IH]; intros c n acc Hal Hoff Hf1 Hf; [lia|].
+  cbn [chain_read_go]. destruct (N.eqb_spec n 0) as [Hn|Hn]; [exact I|].
+  destruct Hal as [?|[q Hq]]; [contradiction|]. specialize (Hf Hn).
+  unfold bind at 1, get at 1. cbv beta iota zeta.
+  unfold chain_len in *. set (sl := slen s) in *. set (L := lenN (c_ids c)) in *.
+  assert (Hmod : c_off c mod sl = 0) by (rewrite Hq, N.mul_comm; apply N.mod_mul; lia).
+  assert (Hdiv : c_off c / sl = q) by (rewrite Hq, N.mul_comm; apply N.div_mul; lia).
+  rewrite Hmod, Hdiv.
+  destruct (N.ltb_spec (sl * L) (c_off c)); [lia|].
+  destruct (N.eqb_spec (N.min n (sl * L - c_off c)) 0) as [|Hmax]; [exact I|].
+  assert (HqL : q < L) by (apply (N.mul_lt_mono_pos_l sl); lia).
+  assert (Hroom : sl <= sl * L - c_off c).
+  { assert (sl * (q + 1) <= sl * L) by (apply N.mul_le_mono_l; lia). lia. }
+  destruct (nthN (c_ids c) q) as [sid|] eqn:Hnth.
+  2:{ apply nthN_None_ge in Hnth. fold L in Hnth. lia. }
+  set (k := N.min (N.min n (sl * L - c_off c)) (sl - 0)).
+  unfold bind at 1.
+  destruct (sector_read_exact_spec sid 0 k s) as (r & -> & Hr); [lia|].
+  destruct r; try contradiction; cbv beta iota; [|exact I].
+  assert (Hk : k = N.min n sl) by lia.
+  clearbody k. clear Hmod Hdiv Hnth.
+  apply IH; cbn [c_off c_ids].
+  - destruct (N.le_gt_cases n sl); [left; lia|right]. exists (q + 1). lia.
+  - fold L. clear Hf. lia.
+  - set (d' := n / sl) in *. lia.
+  - intros Hnk. assert (Hks : k = sl) by lia.
+    assert (Hd : n / sl = 1 + (n - sl) / sl).
+    { rewrite <- N.div_add_l by lia. f_equal. lia. }
+    rewrite Hks. set (d := (n - sl) / sl) in *. set (d' := n / sl) in *. lia.
+Qed.
+
+Lemma chain_read_exact_fine c n s : 0 < slen s -> c_off c = 0 ->
+  fine (run (chain_read_exact c n) s).
+Proof.
+  intros Hsl Hoff. apply fine_run. unfold chain_read_exact, bind at 1, get at 1. cbv beta iota.
+  apply chain_read_go_fine; [assumption| | | |intros _]; try (generalize (N.to_nat (n / slen s)); intros; lia).
+  right. exists 0. lia.
+Qed.
+
+Lemma mark_sectors_fine strict marker : forall ids fat, fine (mark_sectors strict marker ids fat).
+Proof.
+  induction ids as [|i t IH]; intros fat; [exact I|]. cbn [mark_sectors].
+  destruct (nthN fat i); [|exact I]. destruct (_ && _); [exact I|apply IH].
+Qed.
+
+Lemma check_pointees_fine b : forall cells n seen, fine (check_pointees b cells n seen).
+Proof.
+  induction cells as [|c t IH]; intros n seen; [exact I|]. cbn [check_pointees].
+  destruct (_ <=? _).
+  - destruct (_ <=? _); [exact I|]. destruct (memN _ _); [exact I|apply IH].
+  - destruct (_ && _); [exact I|apply IH].
+Qed.
+
+Lemma alloc_validate_fine strict ns ids difat fat : fine (alloc_validate strict ns ids difat fat).
+Proof.
+  unfold alloc_validate. destruct (_ <? _); [exact I|].
+  apply fine_rbind; [apply mark_sectors_fine|]. intros fat1 _.
+  apply fine_rbind; [apply mark_sectors_fine|]. intros fat2 _.
+  apply fine_rbind; [apply check_pointees_fine|]. intros; exact I.
+Qed.
+
+Lemma alloc_validate_Ok strict ns ids difat fat fat' fr :
+  alloc_validate strict ns ids difat fat = Ok (fat', fr) ->
+  check_pointees false fat' (lenN fat') [] = Ok tt.
+Proof.
+  unfold alloc_validate. destruct (_ <? _); [discriminate|].
+  destruct (mark_sectors strict DIFAT_SECTOR ids fat) as [fat1| | |]; try discriminate. cbn [rbind].
+  destruct (mark_sectors strict FAT_SECTOR difat fat1) as [fat2| | |]; try discriminate. cbn [rbind].
+  destruct (check_pointees false fat2 (lenN fat2) []) as [[]| | |] eqn:E; try discriminate. cbn [rbind].
+  intros [= <- _]. exact E.
+Qed.
+
+Lemma mini_validate_fine strict rl mf : fine (mini_validate strict rl mf).
+Proof.
+  unfold mini_validate. cbv zeta.
+  apply fine_rbind.
+  { destruct (_ <? _); [|exact I]. destruct strict; exact I. }
+  intros mf1 _. apply fine_rbind; [apply check_pointees_fine|]. intros; exact I.
+Qed.
+
+Lemma chain_new_run b s start i :
+  check_pointees b (fat s) (lenN (fat s)) [] = Ok tt ->
+  fine (run (chain_new start i) s) /\
+  forall c s', run (chain_new start i) s = Ok (c, s') -> c_off c = 0.
+Proof.
+  intros H. unfold run, chain_new, bind, get, lift, ret. cbv beta iota.
+  pose proof (chain_ids_fine b (fat s) H start) as Hf.
+  destruct (chain_ids_of (fat s) start); try contradiction; split; try exact I; try discriminate.
+  intros c s' [= <- _]. reflexivity.
+Qed.
+
+Theorem open_fine strict bytes : fine (open_model strict bytes).
+Proof.
+  unfold open_model. cbv zeta.
+  destruct (_ <? HEADER_LEN); [exact I|].
+  apply fine_rbind; [apply header_decode_fine|]. intros h _.
+  set (sl := sector_len (h_ver h)).
+  assert (Hsl : 4 <= sl) by (destruct (sector_len_cases (h_ver h)) as [E|E]; unfold sl; rewrite E; lia).
+  destruct (_ <? lenN bytes); [exact I|].
+  destruct (lenN bytes <? sl); [exact I|].
+  set (ns := (lenN bytes + sl - 1) / sl - 1).
+  set (im := chunks sl bytes).
+  apply fine_rbind.
+  { apply difat_loop_fine; [assumption|constructor|constructor|cbn; lia]. }
+  intros [ids difat0] _. cbv beta iota.
+  destruct (_ && _); [exact I|].
+  destruct (strict && negb _); [exact I|].
+  apply fine_rbind.
+  { match goal with |- fine (_ ?L) => generalize L end.
+    intros l. induction l as [|sid t IHl]; [exact I|].
+    destruct (ns <=? sid); [exact I|].
+    apply fine_rbind; [apply read_sector_u32s_fine|]. intros cells _.
+    apply fine_rbind; [exact IHl|]. intros; exact I. }
+  intros fat0 _.
+  apply fine_rbind; [apply alloc_validate_fine|]. intros [fat4 fr] Hav. cbv beta iota.
+  apply alloc_validate_Ok in Hav.
+  apply fine_rbind; [apply dir_loop_fine; [constructor|constructor|cbn; lia]|]. intros ds _.
+  apply fine_rbind; [apply dir_validate_fine|]. intros _ _.
+  match goal with |- fine (rbind (run _ ?s) _) => set (s0 := s) end.
+  destruct (chain_new_run false s0 (h_first_minifat h) IFat Hav) as [Hcf Hc0].
+  apply fine_rbind; [exact Hcf|]. intros [c s1] Hc. cbv beta iota.
+  apply Hc0 in Hc.
+  destruct (_ && _); [exact I|].
+  apply fine_rbind.
+  { apply chain_read_exact_fine; [|exact Hc]. change (slen s0) with sl. lia. }
+  intros [[c2 mbytes] s2] _. cbv beta iota.
+  destruct ds as [|root t]; [exact I|].
+  apply fine_rbind; [apply mini_validate_fine|]. intros [mf mfree] _. exact I.
+Qed.
+
+Theorem open_total strict bytes :
+  match open_model strict bytes with Panic _ | OutOfFuel => False | _ => True end.
+Proof. exact (open_fine strict bytes). Qed.
+
+(* ------------------------------------------------------------------ *)
+(* O6: every cached table is at most as long as the input *)
+Lemma rbind_Ok {A B} (m : res A) (f : A -> res B) b :
+  rbind m f = Ok b -> exists a, m = Ok a /\ f a = Ok b.
+Proof. destruct m; cbn; try discriminate. eauto. Qed.
+
+Lemma lenN_updN {A} (l : list A) : forall i v, lenN (updN l i v) = lenN l.
+Proof.
+  induction l as [|x t IH]; intros i v; [reflexivity|]. cbn [updN].
+  destruct (i =? 0); cbn [lenN]; [reflexivity|]. rewrite IH. reflexivity.
+Qed.
+
+Lemma mark_sectors_len strict marker : forall ids fat fat',
+  mark_sectors strict marker ids fat = Ok fat' -> lenN fat' = lenN fat.
+Proof.
+  induction ids as [|i t IH]; intros fat fat'; cbn [mark_sectors]; [intros [= <-]; reflexivity|].
+  destruct (nthN fat i); [|discriminate]. destruct (_ && _); [discriminate|].
+  intros H. apply IH in H. rewrite H. apply lenN_updN.
+Qed.
+
+Lemma pop_while_len p m : forall f r len, (length (pop_while f p m r len) <= length r)%nat.
+Proof.
+  induction f as [|f IH]; intros r len; cbn [pop_while]; [lia|].
+  destruct r as [|x t]; [apply le_n|]. destruct (_ && _); [|apply le_n].
+  specialize (IH t (len - 1)). cbn [length]. lia.
+Qed.
+
+Lemma strip_last_while_len p m l : lenN (strip_last_while p m l) <= lenN l.
+Proof.
+  unfold strip_last_while. rewrite !lenN_length, rev_length.
+  pose proof (pop_while_len p m (length l) (rev l) (lenN l)) as H.
+  rewrite rev_length, lenN_length in H. lia.
+Qed.
+
+Lemma lenN_repeatN {A} (x : A) n : lenN (repeatN x n) = n.
+Proof.
+  unfold repeatN. induction n as [|n IH] using N.peano_ind; [reflexivity|].
+  rewrite N.iter_succ. cbn [lenN]. rewrite IH. reflexivity.
+Qed.
+
+Lemma hdr_difat_go_len : forall cells r, hdr_difat_go cells = Ok r -> lenN r = lenN cells.
+Proof.
+  induction cells as [|c t IH]; intros r; cbn [hdr_difat_go]; [intros [= <-]; reflexivity|].
+  destruct (c =? FREE_SECTOR); [intros [= <-]; apply lenN_repeatN|].
+  destruct (_ <? c); [discriminate|]. intros H. apply rbind_Ok in H.
+  destruct H as (r' & Hr' & [= <-]). cbn [lenN]. rewrite (IH _ Hr'). reflexivity.
+Qed.
+
+Lemma header_decode_difat_len strict bs h :
+  header_decode strict bs = Ok h -> lenN (h_difat h) <= NUM_DIFAT_HDR.
+Proof.
+  unfold header_decode. cbv zeta.
+  repeat (match goal with |- (if ?c then _ else _) = _ -> _ => destruct c; [discriminate|] end).
+  destruct (version_of_number _) as [v|]; [|discriminate].
+  repeat (match goal with |- (if ?c then _ else _) = _ -> _ => destruct c; [discriminate|] end).
+  intros H. apply rbind_Ok in H. destruct H as (dif & Hd & [= <-]). cbn [h_difat].
+  apply hdr_difat_go_len in Hd. rewrite Hd, lenN_u32s, lenN_takeN. unfold NUM_DIFAT_HDR. lia.
+Qed.
+
+Lemma read_dirents_len v strict : forall n bs es,
+  read_dirents v strict n bs = Ok es -> lenN es = N.of_nat n.
+Proof.
+  induction n as [|n IH]; intros bs es; cbn [read_dirents]; [intros [= <-]; reflexivity|].
+  intros H. apply rbind_Ok in H. destruct H as (e & _ & H).
+  apply rbind_Ok in H. destruct H as (r & Hr & [= <-]). cbn [lenN]. rewrite (IH _ _ Hr). lia.
+Qed.
+
+Lemma lenN_le_bound seen ns : NoDup seen -> Forall (fun x => x < ns) seen -> lenN seen <= ns.
+Proof. intros H1 H2. pose proof (bounded_nodup_length _ _ H1 H2). rewrite lenN_length. lia. Qed.
+
+Lemma dir_loop_len strict v num_dir im ns fat : forall f cur count seen acc ds,
+  NoDup seen -> Forall (fun x => x < ns) seen ->
+  dir_loop f strict v num_dir im ns fat cur count seen acc = Ok ds ->
+  lenN ds + lenN seen * dir_per_sector v <= lenN acc + ns * dir_per_sector v.
+Proof.
+  induction f as [|f IH]; intros cur count seen acc ds Hnd Hall; [discriminate|].
+  cbn [dir_loop].
+  destruct (cur =? END_OF_CHAIN).
+  { intros [= <-]. pose proof (lenN_le_bound _ _ Hnd Hall).
+    assert (lenN seen * dir_per_sector v <= ns * dir_per_sector v) by (apply N.mul_le_mono_r; assumption).
+    lia. }
+  destruct (_ && _); [discriminate|].
+  destruct (_ <? cur); [discriminate|].
+  destruct (N.leb_spec ns cur) as [|Hcur]; [discriminate|].
+  destruct (memN cur seen) eqn:Hmem; [discriminate|]. apply memN_false in Hmem.
+  cbv zeta. intros H. apply rbind_Ok in H. destruct H as (es & Hes & H).
+  apply rbind_Ok in H. destruct H as (nx & _ & H).
+  apply IH in H; [|constructor; assumption|constructor; assumption].
+  apply read_dirents_len in Hes. rewrite lenN_app, Hes, N2Nat.id in H. cbn [lenN] in H.
+  set (d := dir_per_sector v) in *. lia.
+Qed.
+
+Lemma difat_loop_len strict im sl ns : forall f cur seen ids d ids' d',
+  NoDup seen -> Forall (fun x => x < ns) seen ->
+  difat_loop f strict im sl ns cur seen ids d = Ok (ids', d') ->
+  lenN d' + lenN seen * (sl / 4 - 1) <= lenN d + ns * (sl / 4 - 1) /\
+  lenN ids' + lenN seen <= lenN ids + ns.
+Proof.
+  induction f as [|f IH]; intros cur seen ids d ids' d' Hnd Hall; [discriminate|].
+  cbn [difat_loop].
+  destruct (_ || _).
+  { intros [= <- <-]. pose proof (lenN_le_bound _ _ Hnd Hall).
+    assert (lenN seen * (sl / 4 - 1) <= ns * (sl / 4 - 1)) by (apply N.mul_le_mono_r; assumption).
+    lia. }
+  destruct (_ <? cur); [discriminate|].
+  destruct (N.leb_spec ns cur) as [|Hcur]; [discriminate|].
+  destruct (memN cur seen) eqn:Hmem; [discriminate|]. apply memN_false in Hmem.
+  intros H. apply rbind_Ok in H. destruct H as (cells & _ & H). cbv zeta in H.
+  apply rbind_Ok in H. destruct H as (_ & _ & H).
+  destruct (nthN cells (sl / 4 - 1)); [|discriminate].
+  destruct (_ && _); [discriminate|].
+  apply IH in H; [|constructor; assumption|constructor; assumption].
+  rewrite !lenN_app, lenN_takeN in H. cbn [lenN] in H.
+  set (e := sl / 4 - 1) in *. lia.
+Qed.
+
+Lemma free_indices_len : forall cells i, lenN (free_indices cells i) <= lenN cells.
+Proof.
+  induction cells as [|c t IH]; intros i; cbn [free_indices lenN]; [lia|].
+  specialize (IH (i + 1)). destruct (c =? FREE_SECTOR); cbn [lenN]; lia.
+Qed.
+
+Lemma alloc_validate_len strict ns ids difat fat fat' fr :
+  alloc_validate strict ns ids difat fat = Ok (fat', fr) ->
+  lenN fat' <= ns /\ lenN fr <= ns.
+Proof.
+  unfold alloc_validate. destruct (N.ltb_spec ns (lenN fat)) as [|Hns]; [discriminate|].
+  intros H. apply rbind_Ok in H. destruct H as (fat1 & H1 & H).
+  apply rbind_Ok in H. destruct H as (fat2 & H2 & H).
+  apply rbind_Ok in H. destruct H as (_ & _ & [= <- <-]).
+  apply mark_sectors_len in H1, H2. pose proof (free_indices_len fat2 0). lia.
+Qed.
+
+Lemma mini_validate_len strict rl mf mf' fr :
+  mini_validate strict rl mf = Ok (mf', fr) -> lenN mf' <= lenN mf /\ lenN fr <= lenN mf.
+Proof.
+  unfold mini_validate. cbv zeta. intros H. apply rbind_Ok in H. destruct H as (mf1 & H1 & H).
+  apply rbind_Ok in H. destruct H as (_ & _ & [= <- <-]).
+  pose proof (free_indices_len mf1 0).
+  assert (lenN mf1 <= lenN mf); [|lia].
+  destruct (_ <? _); [|injection H1 as <-; lia]. destruct strict; [discriminate|].
+  injection H1 as <-. rewrite lenN_takeN. lia.
+Qed.
+
+Lemma sector_read_exact_len sid off n s s' bs :
+  sector_read_exact sid off n s = (s', Ok bs) -> s' = s /\ lenN bs = n.
+Proof.
+  unfold sector_read_exact, seek_sector, bind, get. cbv beta iota zeta.
+  destruct (_ <? off); [unfold panic; discriminate|].
+  destruct (_ <=? sid); [unfold fail; discriminate|]. unfold ret. cbv beta iota.
+  pose proof (lenN_img_read (img s) (sid + 1) off n).
+  destruct (N.ltb_spec (lenN (img_read (img s) (sid + 1) off n)) n); [unfold fail; discriminate|].
+  intros [= <- <-]. split; [reflexivity|lia].
+Qed.
+
+Lemma chain_read_go_len : forall f c n acc s s' c' bs,
+  chain_read_go f c n acc s = (s', Ok (c', bs)) -> lenN bs = lenN acc + n /\ c_ids c' = c_ids c.
+Proof.
+  induction f as [|f IH]; intros c n acc s s' c' bs; [discriminate|].
+  cbn [chain_read_go]. destruct (N.eqb_spec n 0) as [->|Hn].
+  { unfold ret. intros [= <- <- <-]. split; [lia|reflexivity]. }
+  unfold bind at 1, get at 1. cbv beta iota zeta.
+  destruct (_ <? c_off c); [unfold panic; discriminate|].
+  destruct (N.eqb_spec (N.min n (chain_len (slen s) c - c_off c)) 0); [unfold fail; discriminate|].
+  destruct (nthN (c_ids c) _) as [sid|]; [|unfold panic; discriminate].
+  set (k := N.min _ (slen s - _)). unfold bind at 1.
+  destruct (sector_read_exact sid (c_off c mod slen s) k s) as [s1 r] eqn:E.
+  destruct r as [bs0| | |]; try discriminate.
+  apply sector_read_exact_len in E. destruct E as [-> Hb].
+  intros H. apply IH in H. cbn [c_ids] in H. destruct H as [H1 H2]. split; [|exact H2].
+  rewrite H1, lenN_app, Hb. lia.
+Qed.
+
+Lemma run_Ok {A} (m : M A) s a s' : run m s = Ok (a, s') -> m s = (s', Ok a).
+Proof. unfold run. destruct (m s) as [s1 r]. destruct r; try discriminate. intros [= <- <-]. reflexivity. Qed.
+
+Lemma chunks_go_len sl : forall f bs, (length (chunks_go f sl bs) <= f)%nat.
+Proof.
+  induction f as [|f IH]; intros bs; cbn [chunks_go]; [cbn; lia|].
+  destruct bs; [cbn; lia|]. cbn [length]. specialize (IH (dropN sl (b :: bs))). lia.
+Qed.
+
+Theorem open_size_bound strict bytes s :
+  open_model strict bytes = Ok s ->
+  lenN (fat s) <= lenN bytes /\ lenN (dirs s) <= lenN bytes /\
+  lenN (minifat s) <= lenN bytes /\ lenN (difat s) <= lenN bytes /\
+  lenN (difat_ids s) <= lenN bytes /\ lenN (free s) <= lenN bytes /\
+  lenN (mfree s) <= lenN bytes /\ lenN (img s) <= lenN bytes.
+Proof.
+  unfold open_model. cbv zeta.
+  destruct (N.ltb_spec (lenN bytes) HEADER_LEN) as [|Hlen]; [discriminate|].
+  intros H. apply rbind_Ok in H. destruct H as (h & Hh & H).
+  apply header_decode_difat_len in Hh.
+  set (sl := sector_len (h_ver h)) in *.
+  assert (Hsl : sl = 512 \/ sl = 4096) by apply sector_len_cases.
+  destruct (_ <? lenN bytes); [discriminate|].
+  destruct (N.ltb_spec (lenN bytes) sl) as [|Hlsl]; [discriminate|].
+  set (ns := (lenN bytes + sl - 1) / sl - 1) in *.
+  set (im := chunks sl bytes) in *.
+  assert (Hns : ns * sl < lenN bytes).
+  { unfold ns. clearbody sl. clear H. destruct Hsl; subst sl; lia. }
+  apply rbind_Ok in H. destruct H as ([ids difat0] & Hdl & H). cbv beta iota in H.
+  apply difat_loop_len in Hdl; [|constructor|constructor]. cbn [lenN] in Hdl.
+  destruct (_ && _); [discriminate|].
+  set (difat2 := strip_last_while _ 0 _) in *.
+  assert (Hd2 : lenN difat2 <= lenN difat0).
+  { unfold difat2. etransitivity; [apply strip_last_while_len|].
+    destruct strict; [lia|apply strip_last_while_len]. }
+  destruct (strict && negb _); [discriminate|].
+  apply rbind_Ok in H. destruct H as (fat0 & _ & H).
+  apply rbind_Ok in H. destruct H as ([fat4 fr] & Hav & H). cbv beta iota in H.
+  pose proof (alloc_validate_Ok _ _ _ _ _ _ _ Hav) as Hcp.
+  apply alloc_validate_len in Hav.
+  apply rbind_Ok in H. destruct H as (ds & Hds & H).
+  apply dir_loop_len in Hds; [|constructor|constructor]. cbn [lenN] in Hds.
+  apply rbind_Ok in H. destruct H as (_ & _ & H).
+  apply rbind_Ok in H. destruct H as ([c s1] & Hc & H). cbv beta iota in H.
+  apply run_Ok in Hc. unfold chain_new, bind, get, lift, ret in Hc. cbv beta iota in Hc. cbn [fat] in Hc.
+  destruct (chain_ids_of fat4 (h_first_minifat h)) as [cids| | |] eqn:Hci; try discriminate.
+  injection Hc as <- <-.
+  apply (chain_ids_nodup false fat4 Hcp) in Hci. destruct Hci as (_ & _ & Hcl).
+  destruct (_ && _); [discriminate|].
+  apply rbind_Ok in H. destruct H as ([[c2 mbytes] s2] & Hrd & H). cbv beta iota in H.
+  apply run_Ok in Hrd. unfold chain_read_exact, bind at 1, get at 1 in Hrd. cbv beta iota in Hrd.
+  apply chain_read_go_len in Hrd. destruct Hrd as [Hrd _]. cbn [lenN] in Hrd.
+  destruct ds as [|root t] eqn:Eds; [discriminate|]. rewrite <- Eds in *.
+  apply rbind_Ok in H. destruct H as ([mf mfr] & Hmv & [= <-]).
+  apply mini_validate_len in Hmv.
+  pose proof (strip_last_while_len (fun x => x =? FREE_SECTOR) 0 (u32s mbytes)) as Hmf0.
+  rewrite lenN_u32s, Hrd in Hmf0.
+  unfold chain_len in Hmf0. cbn [c_ids] in Hmf0.
+  assert (Hcl' : lenN cids <= ns) by (rewrite !lenN_length in *; lia).
+  cbn [fat dirs minifat difat difat_ids free mfree img].
+  assert (Him : lenN im <= lenN bytes).
+  { unfold im, chunks. rewrite lenN_length.
+    pose proof (chunks_go_len sl (S (N.to_nat (lenN bytes / sl))) bytes) as Hch.
+    clearbody sl. clear - Hch Hsl Hlsl. destruct Hsl; subst sl; lia. }
+  unfold dir_per_sector in Hds. fold sl in Hds. unfold NUM_DIFAT_HDR, DIR_ENTRY_LEN, HEADER_LEN in *.
+  clearbody sl ns difat2 im.
+  assert (Hm : sl * lenN cids <= sl * ns) by (apply N.mul_le_mono_l; assumption).
+  clear Hcp.
+  clear Hrd.
+  destruct Hsl; subst sl;
+    [ change (512 / 128) with 4 in *; change (512 / 4 - 1) with 127 in *
+    | change (4096 / 128) with 32 in *; change (4096 / 4 - 1) with 1023 in * ];
+    repeat split; lia.
+Qed.
+
+(* ------------------------------------------------------------------ *)
+Check difat_loop_total.
+Check dir_loop_total.
+Check dir_dfs_total.
+Check dirent_decode_total.
+Check header_decode_total.
+Check open_total.
+Check open_size_bound.
+Print Assumptions difat_loop_total.
+Print Assumptions dir_loop_total.
+Print Assumptions dir_dfs_total.
+Print Assumptions dirent_decode_total.
+Print Assumptions header_decode_total.
+Print Assumptions open_total.
+Print Assumptions open_size_bound.
